@@ -470,6 +470,20 @@ func (fr *frame) loopEnv(li *loopInfo, st *State, phis map[*ssa.Phi]Term) *Env {
 			env.pkg = fr.fn.Pkg.Pkg.Path()
 		}
 	}
+	env.lookupAddr = func(name string) (CVal, bool) {
+		for p := fr; p != nil; p = p.parent {
+			for _, b := range p.fn.Blocks {
+				for _, in := range b.Instrs {
+					if al, ok := in.(*ssa.Alloc); ok && al.Comment == name {
+						if r, ok := p.vals[al].(Term); ok {
+							return CVal{r, al.Type()}, true
+						}
+					}
+				}
+			}
+		}
+		return CVal{}, false
+	}
 	env.lookup = func(name string) (CVal, bool) {
 		if !fr.top {
 			for _, p := range fr.fn.Params {
@@ -534,6 +548,12 @@ func (fr *frame) loopEnv(li *loopInfo, st *State, phis map[*ssa.Phi]Term) *Env {
 			return v, true
 		}
 		if !fr.top {
+			// a variable of the calling function (seen from the call site), then its parameters
+			for p := fr; p.parent != nil && p.callBlock != nil; p = p.parent {
+				if v, ok := p.parent.lookupVarAt(name, p.callBlock); ok {
+					return v, true
+				}
+			}
 			if v, ok := callerVars[name]; ok {
 				return v, true
 			}
